@@ -1354,3 +1354,17 @@ package server
 //@ func (*Aof).FindAofFiles$1
 //@   ensures C16.find.snapshot-name: rewriteFile == old(rewriteFile) || rewriteFile == "rewrite.aof"
 //@   modifies all
+
+// C16: one compaction at a time: a request that finds a compaction running leaves without touching the files and
+// without clearing the running compaction's flag (two compactions appending to one rewrite.aof.tmp, or one removing
+// the other's fresh snapshot as an input, lose or duplicate holds)
+//@ func (*Aof).rewriteAofFiles
+//@   requires self != nil && self.glock != nil
+//@   ensures C16.rewrite.exclusive: implies(old(self.isRewriting), self.isRewriting && calls(findRewriteAofFiles) == 0 && calls(loadRewriteAofFiles) == 0 && calls(clearRewriteAofFiles) == 0)
+//@   ensures C16.rewrite.released: implies(!old(self.isRewriting), !self.isRewriting)
+//@   modifies all
+//@ func (*Aof).rewriteAofFiles$1
+//@   inline
+//@ func (*Aof).loadRewriteAofFiles
+//@   trusted cut point: what a compaction copies is decided record by record in its literal (loadRewriteAofFiles$1), which is under contract
+//@   modifies all
